@@ -285,6 +285,27 @@ def node(w, hist, cfg, res):
                     bad('ro.state', '%s:%s:%s' % (kind, tag, q[0]),
                         dict(image=label, index=cname, query=q,
                              full_scan=repr(a)[:300], read_only=repr(b)[:300]))
+                if cname == 'none':
+                    # ... also when it is told about a blob directory that
+                    # does not exist (yet)
+                    res.clause('C09.ro.files')
+                    s2 = call(FS(), os.path.join(dd, 'Data.fs'),
+                              read_only=True,
+                              blob_dir=os.path.join(dd, 'blobs'))
+                    if isinstance(s2, Exc):
+                        bad('ro.open', '%s:blob-dir:%s' % (kind, s2.name),
+                            dict(image=label, got=repr(s2)))
+                    else:
+                        call(s2.load, p64(1))
+                        s2.close()
+                    made = sorted(set(os.listdir(dd)) - set(want))
+                    if made:
+                        bad('ro.files', '%s:blob-dir:created' % kind,
+                            dict(image=label, created=made))
+                        import shutil
+                        for x in made:
+                            shutil.rmtree(os.path.join(dd, x),
+                                          ignore_errors=True)
             finally:
                 env.rm_dir(dd)
     # torn tail: the last transaction cut at several places, or still
